@@ -1,7 +1,11 @@
 (** Correspondence evaluator for C16.
     kind 0: a texttab API call sequence, the permutation sort.Slice produced for
             "cells by span", and the bytes Format wrote (or a panic);
-    kind 1: a key slice and the breadth-first levels of benchproc.NewKeyHeader. *)
+    kind 1: a key slice and the breadth-first levels of benchproc.NewKeyHeader;
+    kind 2: the lines of real benchtab text tables (observation only);
+    kind 3: per real table: the abstract table, ToText's bytes, ToCSV's records and warnings;
+    kind 4: a whole run: per table its table-key header lines and abstract table,
+            and every record and the warning stream Tables.ToCSV wrote. *)
 From Perf Require Import Base.Bytes Base.Sx Model.Runes Model.TextTab Model.KeyHeader Model.LayoutObs Model.Render.
 
 Definition as_align (s : sx) : option align :=
@@ -78,7 +82,8 @@ Inductive case :=
 | KTable (ops : list op) (perm : list nat) (obs : observed)
 | KKeys (nf : nat) (keys : list key) (nlev : nat) (levels : list (list hnode))
 | KBench (tables : list (nat * list bytes))        (* header line count, table lines *)
-| KTextCsv (tables : list tc_table).               (* abstract table + real text + real CSV *)
+| KTextCsv (tables : list tc_table)                (* abstract table + real text + real CSV *)
+| KCsvTables (tabs : list (list bytes * rtable)) (recs : list (list bytes)) (warn : bytes).
 
 Definition decode (s : sx) : option case :=
   match s with
@@ -92,6 +97,9 @@ Definition decode (s : sx) : option case :=
   | SL [SZ 2; tabs] =>
       do tabs <- as_list (as_pair as_nat (as_list as_b)) tabs; Some (KBench tabs)
   | SL [SZ 3; tabs] => do tabs <- as_list as_tc tabs; Some (KTextCsv tabs)
+  | SL [SZ 4; tabs; recs; SB warn] =>
+      do tabs <- as_list (as_pair (as_list as_b) as_rtable) tabs; do recs <- as_list (as_list as_b) recs;
+      Some (KCsvTables tabs recs warn)
   | _ => None
   end.
 
@@ -176,6 +184,40 @@ Definition tc_corr (t : tc_table) : bool :=
      | _, _ => false
      end.
 
+(** Tables.ToCSV observed on a whole run, read from its output alone: every
+    warning line "REFn: msg" refers to spreadsheet row n (1-based record of the
+    output) that exists, is not a blank/separator record and lies in a table
+    below that table's unit row (the record [""; unit; "CI"; ...] nearest above
+    it without a blank record in between); the referenced column of the unit
+    row is the unit (a centre column) or "vs base" (a delta column - then the
+    row is not the table's last record, the summary row) *)
+Definition is_blank_rec (r : list bytes) : bool := match r with [[]] => true | _ => false end.
+Definition is_unit_rec (r : list bytes) : bool :=
+  match r with f0 :: _ :: f2 :: _ => knil f0 && beq f2 (bs "CI") | _ => false end.
+Fixpoint nearest_unit (before : list (list bytes)) : option (list bytes) :=   (* [before]: records above, nearest first *)
+  match before with
+  | [] => None
+  | r :: l => if is_blank_rec r then None else if is_unit_rec r then Some r else nearest_unit l
+  end.
+Definition ref_index (ref : bytes) : nat := fold_left (fun a b => a * 26 + (N.to_nat (bN b) - 64))%nat ref 0%nat - 1.
+Definition tables_warn_ok (recs : list (list bytes)) (w : bytes * nat * bytes) : bool :=
+  let '(ref, row, _) := w in
+  (1 <=? row)%nat && (row <=? length recs)%nat &&
+  match nth_error recs (row - 1), nearest_unit (rev (firstn (row - 1) recs)) with
+  | Some r, Some u =>
+      let c := ref_index ref in
+      let h := field u c in
+      let last := match nth_error recs row with None => true | Some r' => is_blank_rec r' end in
+      negb (is_blank_rec r) && (1 <=? c)%nat && negb (knil h)
+      && (beq h (field u 1) || (beq h (bs "vs base") && negb last))
+  | _, _ => false
+  end.
+Definition csv_tables_obs_ok (recs : list (list bytes)) (warn : bytes) : bool :=
+  match omap' parse_wline (split_nl [] warn) with
+  | Some ws => forallb (tables_warn_ok recs) ws
+  | None => false
+  end.
+
 Definition corr_ok (c : case) : bool :=
   match c with
   | KTable ops perm obs =>
@@ -195,6 +237,9 @@ Definition corr_ok (c : case) : bool :=
       && (nlev =? match keys with [] => 0 | _ => nf end)%nat
   | KBench _ => true      (* observation only; the assembly is tied by kind 3 *)
   | KTextCsv tabs => forallb tc_corr tabs
+  | KCsvTables tabs recs warn =>
+      let '(mrecs, mws) := csv_tables_model tabs in
+      list_eqb (list_eqb beq) mrecs recs && list_eqb beq (map wline_bytes mws) (split_nl [] warn)
   end.
 
 Definition prop_ok (c : case) : bool :=
@@ -217,6 +262,7 @@ Definition prop_ok (c : case) : bool :=
       forallb (fun k => (length k =? nf)%nat) keys && header_ok nf keys levels
   | KBench tabs => forallb bench_table_ok tabs
   | KTextCsv tabs => forallb (fun t => text_csv_ok (tc_start t) (tc_text t) (tc_recs t) (tc_warn t)) tabs
+  | KCsvTables _ recs warn => csv_tables_obs_ok recs warn
   end.
 
 Definition run_case (s : sx) : N :=
